@@ -66,7 +66,8 @@ Bufs == {1, 2}
 \* pc: "lo" "localhost" "empty" "port0" "if" - all the same to the model
 \*     "empty0" = "", "lo0" = "localhost:0", "if0" = "<interface address>:0", "grp0" = "<g1>:0": own ephemeral
 \*     port, so nothing of the scenario's traffic is addressed to them (constructor/getter coverage)
-BindIp(b) == IF b = "any" THEN "0.0.0.0" ELSE IF b = "grp" THEN G1
+\*     "solo" = ":0": alone on its own port, reached by unicast only (act "uni")
+BindIp(b) == IF b \in {"any", "solo"} THEN "0.0.0.0" ELSE IF b = "grp" THEN G1
              ELSE IF b = "if" /\ Kind = "mc" THEN "ifip"
              ELSE IF b \in {"empty0", "lo0", "if0", "grp0"} THEN "other-port" ELSE "lo"
 RPort == 1
@@ -121,6 +122,7 @@ KMem(k, api, s) ==
 
 \* does the kernel queue a datagram (group g, source s, looped) on receiver p
 KDeliver(p, g, s) ==
+  /\ bnd[p] # "solo"
   /\ BindIp(bnd[p]) \in {"0.0.0.0", g}
   /\ LET k == km[p][g] IN
      CASE k.mode = "none" -> BUG_AllOn /\ BindIp(bnd[p]) = "0.0.0.0"    \* the raw control socket is a member of every group
@@ -182,11 +184,13 @@ RcvSeq == [p \in Rcv |-> p]
 RECURSIVE Flat(_)
 Flat(ss) == IF ss = <<>> THEN <<>> ELSE Head(ss) \o Flat(Tail(ss))
 
+PortOf(b, p) == IF BindIp(b[p]) = "other-port" THEN 20 + p ELSE IF b[p] = "solo" THEN 30 + p ELSE RPort
+
 WIp(w) == IF w = "if0" THEN "ifip" ELSE "0.0.0.0"
 
 Prologue(b, w) ==
   <<[E0 EXCEPT !.ev = "Begin"]>>
-  \o Flat([p \in Rcv |-> <<EvOpen(p, Kind, BindIp(b[p]), IF BindIp(b[p]) = "other-port" THEN 20 + p ELSE RPort)>>
+  \o Flat([p \in Rcv |-> <<EvOpen(p, Kind, BindIp(b[p]), PortOf(b, p))>>
                           \o (IF Kind = "mc" THEN <<FreshSample(p, BindIp(b[p]) \o ":1")>> ELSE <<>>)])
   \o (IF HasW THEN <<EvOpen(W, "mc", WIp(w), WPort), FreshSample(W, "0.0.0.0:2")>> ELSE <<>>)
   \o (IF PreJoin THEN Flat([p \in Rcv |-> [k \in DOMAIN GrpSeq |-> EvMem(p, "Join", GrpSeq[k], "", "nil")]]) ELSE <<>>)
@@ -269,6 +273,19 @@ SendBurst(g, snd) ==
   /\ UNCHANGED <<km, rr, ws, wp, bnd, wb, nop>>
 
 BurstStep == IF Kind = "mc" THEN \E g \in Groups : SendBurst(g, 1) ELSE \E snd \in 1..NS : SendBurst("", snd)
+
+\* unicast from a raw sender to a multicast peer that is alone on its port
+SendUni(p, cls, snd) ==
+  LET d == [did |-> nd, cls |-> cls, src |-> "uni", sport |-> 40 + snd] IN
+  /\ "uni" \in Acts /\ Kind = "mc" /\ bnd[p] = "solo"
+  /\ kq' = [kq EXCEPT ![p] = Append(@, d)]
+  /\ nd' = nd + 1
+  /\ Emit(<<[EvSend("uni", 30 + p, 0, "uni", 40 + snd, nd, cls) EXCEPT !.loop = 0]>>,
+          [a |-> "Uni", p |-> p, cls |-> cls, snd |-> snd, x |-> <<p>>])
+  /\ Tick
+  /\ UNCHANGED <<km, rr, ws, wp, bnd, wb, nop>>
+
+UniStep == \E p \in Rcv, cls \in {"S", "L"}, snd \in 1..NS : SendUni(p, cls, snd)
 
 SendStep ==
   /\ "send" \in Acts
@@ -437,7 +454,7 @@ Step ==
   /\ UNCHANGED done
   /\ \/ Poll
      \/ /\ steps < MaxSteps
-        /\ (MemStep \/ SendStep \/ BurstStep \/ RdStep \/ WrStep \/ WSetStep)
+        /\ (MemStep \/ SendStep \/ UniStep \/ BurstStep \/ RdStep \/ WrStep \/ WSetStep)
 
 Finish == /\ ~done /\ done' = TRUE /\ UNCHANGED <<implvars, m, hist>>
 
